@@ -9,6 +9,7 @@
  *
  * usage: rt_driver <casedir> <short-script|-> <op> <op> ...
  *   ops:  e<k>[:a+b+c]   normal event, payload k bytes (0,2..16) added in the given split
+ *         q<k>           the same, carrying the clock of the previous event
  *         j<n>           jumbo event with n bytes of data
  *         f              ovni_flush()
  *         mp<v> mo<v> ms<v>   mark push/pop (type 0, stack) / set (type 1, single)
@@ -129,6 +130,7 @@ main(int argc, char *argv[])
 
 	char mcv[4] = "OB.";
 	unsigned seq = 0;
+	uint64_t last_clock = fake_ns;
 	static uint8_t *jbuf;
 	jbuf = malloc((size_t) OVNI_MAX_EV_BUF + 64);
 	for (int a = 3; a < argc; a++) {
@@ -137,13 +139,14 @@ main(int argc, char *argv[])
 		fprintf(logf, "S %zu\n", rthread.evlen); /* fill level before the call: state key only */
 		if (op[0] == 'M') {
 			memcpy(mcv, op + 1, 3);
-		} else if (op[0] == 'e') {
+		} else if (op[0] == 'e' || op[0] == 'q') {
+			/* q<k>: like e<k> but with the same clock as the previous event (equal clocks are legal) */
 			int k = atoi(op + 1);
 			struct ovni_ev ev = {0};
 			uint8_t p[32];
 			for (int i = 0; i < k; i++)
 				p[i] = pat(seq, (size_t) i);
-			ovni_ev_set_clock(&ev, ovni_clock_now());
+			ovni_ev_set_clock(&ev, op[0] == 'q' ? last_clock : ovni_clock_now());
 			ovni_ev_set_mcv(&ev, mcv);
 			const char *split = strchr(op, ':');
 			if (k > 0) {
@@ -159,6 +162,7 @@ main(int argc, char *argv[])
 					ovni_payload_add(&ev, p, k);
 				}
 			}
+			last_clock = ovni_ev_get_clock(&ev);
 			fprintf(logf, "E %s %" PRIu64 " %d %u\n", mcv, ovni_ev_get_clock(&ev), k, seq);
 			fflush(logf);
 			ovni_ev_emit(&ev);
@@ -202,6 +206,7 @@ main(int argc, char *argv[])
 			ovni_payload_add(&ev, (uint8_t *) &cpu, 4);
 			ovni_payload_add(&ev, (uint8_t *) &tid, 4);
 			ovni_payload_add(&ev, (uint8_t *) &tag, 8);
+			last_clock = ovni_ev_get_clock(&ev);
 			fprintf(logf, "R OHx %" PRIu64 "\n", ovni_ev_get_clock(&ev));
 			fflush(logf);
 			ovni_ev_emit(&ev);
